@@ -136,9 +136,10 @@ func NewTextStyle(style pr.StyleAccessor, ignoreSpacing bool) *TextStyle {
 		if ls := style.GetLetterSpacing(); ls.S != "normal" {
 			out.LetterSpacing = pr.Fl(ls.Value)
 		}
+		// (like the spacings, tab-size may itself be a length in ex or ch :
+		// it must not be read while the ex / ch ratio of the font is measured)
+		out.TabSize = newTabSize(style.GetTabSize())
 	}
-
-	out.TabSize = newTabSize(style.GetTabSize())
 
 	out.FontFeatures = getFontFeatures(style)
 
